@@ -86,7 +86,10 @@ type c28Case struct {
 	Input string `json:"input"`
 }
 
-func c28Judge(r *kit.Run, class, s string) {
+// c28Check parses s through every parser entry point and judges each answer with the
+// oracle; violations are keyed keyPrefix+<class of failure>. It keeps no monitor state of
+// its own (only r.Violation, which is locked), so it may be called from many goroutines.
+func c28Check(r *kit.Run, keyPrefix, class, s string) c28Verdict {
 	c := c28Case{Class: class, Input: s}
 	verdict, want, why := c28Classify(s)
 	type res struct {
@@ -95,7 +98,7 @@ func c28Judge(r *kit.Run, class, s string) {
 		err  error
 	}
 	var results []res
-	r.Guard("codec.StringToAddress", c, func() {
+	r.Guard(strings.TrimPrefix(keyPrefix, "C28/")+"codec.StringToAddress", c, func() {
 		a, err := codec.StringToAddress(s)
 		results = append(results, res{"StringToAddress", a, err})
 		var u codec.Address
@@ -107,32 +110,37 @@ func c28Judge(r *kit.Run, class, s string) {
 			results = append(results, res{"json.Unmarshal", j, err})
 		}
 	})
-	r.Eval()
 	for _, x := range results {
 		switch verdict {
 		case c28MustReject:
 			if x.err == nil {
-				key := "C28/malformed-input-accepted"
+				key := "malformed-input-accepted"
 				switch {
 				case strings.HasPrefix(why, "decodes to"):
-					key = "C28/wrong-length-payload-accepted"
+					key = "wrong-length-payload-accepted"
 				case why == "bad checksum":
-					key = "C28/bad-checksum-accepted"
+					key = "bad-checksum-accepted"
 				}
-				r.Violation(key, c, "%s(%q) accepted (-> %x) an input that is not the encoding of a full-length address: %s [class %s]", x.name, s, x.addr[:], why, class)
+				r.Violation(keyPrefix+key, c, "%s(%q) accepted (-> %x) an input that is not the encoding of a full-length address: %s [class %s]", x.name, s, x.addr[:], why, class)
 			}
 		case c28MustAccept:
 			if x.err != nil {
-				r.Violation("C28/canonical-encoding-rejected", c, "%s(%q) failed: %v", x.name, s, x.err)
+				r.Violation(keyPrefix+"canonical-encoding-rejected", c, "%s(%q) failed: %v", x.name, s, x.err)
 			} else if [c28AddrLen]byte(x.addr) != want {
-				r.Violation("C28/roundtrip-mismatch", c, "%s(%q) = %x, want %x", x.name, s, x.addr[:], want[:])
+				r.Violation(keyPrefix+"roundtrip-mismatch", c, "%s(%q) = %x, want %x", x.name, s, x.addr[:], want[:])
 			}
 		case c28MayAccept:
 			if x.err == nil && [c28AddrLen]byte(x.addr) != want {
-				r.Violation("C28/noncanonical-spelling-wrong-address", c, "%s(%q) = %x, the digits spell %x", x.name, s, x.addr[:], want[:])
+				r.Violation(keyPrefix+"noncanonical-spelling-wrong-address", c, "%s(%q) = %x, the digits spell %x", x.name, s, x.addr[:], want[:])
 			}
 		}
 	}
+	return verdict
+}
+
+func c28Judge(r *kit.Run, class, s string) {
+	verdict := c28Check(r, "C28/", class, s)
+	r.Eval()
 	switch verdict {
 	case c28MustReject:
 		r.Count("oracle_must_reject", 1)
@@ -169,15 +177,21 @@ func c28RandAddr(rng *rand.Rand) codec.Address {
 
 func TestC28(t *testing.T) {
 	r := kit.Start(t, "C28", "exploration")
-	r.Rule("round trip: random and boundary addresses through String/MarshalText/json.Marshal and back (StringToAddress, UnmarshalText, json.Unmarshal). Hostile strings derived from a valid encoding: payloads of every length 0..80 != 33 carrying a VALID checksum (truncated, extended, zero-padded, prefix of a real address), one flipped nibble at every position, dropped/duplicated characters (odd length), a non-hex character at any position, whitespace, doubled prefix, missing checksum, empty input; non-canonical spellings (no prefix, 0X, upper/mixed case) may be accepted or rejected but never yield another address. Oracle: accept iff the text is 0x + lower-case hex of 33 bytes followed by the last 4 bytes of their sha256. Non-trivial = hostile or non-canonical input; distinct = distinct input string (plus class x length/position buckets).")
-	r.Assume("checksum = last 4 bytes of sha256(payload) (verified against Address.String on start-up; a mismatch makes the run inconclusive, not violated)",
+	r.Rule("round trip: random and boundary addresses through String/MarshalText/json.Marshal and back (StringToAddress, UnmarshalText, json.Unmarshal). Hostile strings derived from a valid encoding: payloads of every length 0..80 != 33 carrying a VALID checksum (truncated, extended, zero-padded, prefix of a real address), one flipped nibble at every position, dropped/duplicated characters (odd length), a non-hex character at any position, whitespace, doubled prefix, missing checksum, empty input; non-canonical spellings (no prefix, 0X, upper/mixed case) may be accepted or rejected but never yield another address. Oracle: accept iff the text is 0x + lower-case hex of 33 bytes followed by the last 4 bytes of their sha256. Concurrent part: 16 goroutines (own PRNG streams) format random/boundary addresses (String, MarshalText, json) and parse the produced text, the oracle's canonical text and hostile relatives (flipped nibble, wrong length with valid checksum, checksum of another address, dropped character, upper case) at the same time; every single answer is judged by the same classifier/encoder as in the sequential part (keys C28/concurrent/...). Non-trivial = hostile or non-canonical input; distinct = distinct input string (plus class x length/position buckets).")
+	r.Assume("formatting and parsing are functions of their argument: the answer required for one call does not depend on other calls running at the same time",
+		"checksum = last 4 bytes of sha256(payload) (verified against Address.String on start-up; a mismatch makes the run inconclusive, not violated)",
 		"whether the 0x prefix is optional and whether upper-case hex digits are admitted is left open by the statement: such inputs are only required not to produce a different address")
 	rng := r.Rand("cases")
 
 	if rf := r.Replay(); rf != nil && len(rf.Witness) > 0 {
 		var c c28Case
 		if err := json.Unmarshal(rf.Witness, &c); err == nil {
-			c28Judge(r, c.Class, c.Input)
+			if strings.HasPrefix(c.Class, "concurrent/") {
+				// an interleaving cannot be replayed step by step: re-run the concurrent part
+				c28Concurrent(r, 16, r.N(4000, 100000))
+			} else {
+				c28Judge(r, c.Class, c.Input)
+			}
 			r.Finish(0)
 			return
 		}
@@ -353,5 +367,8 @@ func TestC28(t *testing.T) {
 		c28Judge(r, "wrong-length-valid-checksum", c28Encode(p))
 		r.Distinct("len-all", l)
 	}
+
+	// (5) the same calls from many goroutines at once
+	c28Concurrent(r, 16, r.N(4000, 100000))
 	r.Finish(r.N(3000, 100000))
 }
